@@ -46,6 +46,14 @@ theorem invalid_cache_not_reused (src : List Item) (r : Run) (st : St) (hs : r.s
     · exact absurd ht h
     · exact absurd hc0 h
 
+/-- a job whose cache output is missing or unreadable (torn, empty, not a JobOutput: all modelled as "no entry") is
+computed again whenever its item is still to do -/
+theorem missing_cache_executed (src : List Item) (r : Run) (st : St) (it : Item) (hit : it ∈ src)
+    (hd : st.dest it.key = none) (j : String) (hj : j ∈ jobNames it) (hc : st.cache j = none) :
+    j ∈ (runRepaired src r st).2 := by
+  rw [executed_exactly]
+  exact ⟨⟨it, hit, hd, hj⟩, by simp [validCache, hc]⟩
+
 /-- a job without any cache entry is executed; one with a valid entry is not (whatever else happens) -/
 theorem valid_cache_reused (src : List Item) (r : Run) (st : St) (j : String) (h : validCache r st j = true) :
     j ∉ (runRepaired src r st).2 := by
